@@ -193,6 +193,28 @@ def inline_call(caller_raw, b, helper_raw):
         seeds.append(dest["l"])              # the call's destination
 
 
+def inline_at(prog, body, block):
+    """a new Body equal to `body` with the crate-local callee of the call terminating `block` inlined (variants threaded),
+    or None when the callee is not a crate-local, non-recursive function. Used by rules that must look through one
+    specific call (the rule names the call site); semantics are preserved."""
+    t = body.blocks[block]["term"]
+    if t["k"] != "call":
+        return None
+    fr = op_fn(t["func"])
+    callee = prog.resolve_local(fr) if fr is not None else None
+    if callee is None or callee.path == body.path or callee.n > MAX_BLOCKS:
+        return None
+    if any(f2 is not None and prog.resolve_local(f2) is callee for _, _, f2 in callee.iter_calls()):
+        return None
+    raw = copy.deepcopy(body.raw)
+    inline_call(raw, block, copy.deepcopy(callee.raw))
+    try:
+        raw = thread_variants(raw)
+    except Exception:
+        pass
+    return mir.Body(raw, prog)
+
+
 def inlined_facts(facts, vocab=None):
     """returns (facts2, info) where facts2 is the helper-inlined view, or (None, info) when there is nothing to inline"""
     vocab = vocab if vocab is not None else load_vocab()
